@@ -485,9 +485,28 @@ class Projector:
             if err:
                 schema_ok = False
                 why.append(f"schema: {err}")
+        meta_ok = True
+        argv = next((x["argv"] for x in self.run["events"] if x["ev"] == "RunStart"), None)
+        run = rep.get("run") or {}
+        if argv is not None:
+            want_cmd = " ".join(argv)
+            cmd = run.get("commandLine") or ""
+            if not (cmd.endswith(" " + want_cmd) and cmd[: -len(want_cmd) - 1].strip() and " " not in cmd[: -len(want_cmd) - 1].strip()):
+                meta_ok = False
+                why.append(f"run.commandLine {cmd[:120]!r} is not `<command> {want_cmd[:80]}`")
+            want_dir = os.path.abspath(self.run["directory"]) if self.run.get("directory") else None
+            if want_dir is not None and os.path.realpath(run.get("directory") or "") != os.path.realpath(want_dir):
+                meta_ok = False
+                why.append(f"run.directory {run.get('directory')!r} is not the scanned directory {want_dir!r}")
+        if run.get("vendor") != "pixee" or run.get("tool") != "codemodder-python" or not run.get("version"):
+            meta_ok = False
+            why.append("run.vendor / tool / version")
+        if not isinstance(run.get("elapsed"), int) or isinstance(run.get("elapsed"), bool) or run.get("elapsed") < 0:
+            meta_ok = False
+            why.append(f"run.elapsed {run.get('elapsed')!r} is not a non-negative number of milliseconds")
         if why:
             self.notes.extend(why[:5])
-        return {"ev": "ReportBuilt", "results": results, "schemaOk": schema_ok, "shapeOk": shape_ok}
+        return {"ev": "ReportBuilt", "results": results, "schemaOk": schema_ok, "shapeOk": shape_ok, "metaOk": meta_ok}
 
     def _rel_of_abs(self, p: str, rep: dict) -> str:
         d = rep.get("run", {}).get("directory", "")
